@@ -87,13 +87,15 @@ def build_table(p):
             idx = rng.sample(range(n), min(k, n))
         for j in idx:
             rows[j][i] = None
-    # an integer-valued feature column now and then
+    # integer-valued feature columns now and then (text readers type a column from its first rows; a missing value
+    # further down must still be found)
     if p.get("int_feature") and feats:
-        c = feats[-1]
-        if c not in nan_cols:
+        k_int = 1 + (p["data_seed"] % 3)
+        for c in ([feats[-1]] + nan_cols)[:k_int]:
             i = cols.index(c)
             for r in rows:
-                r[i] = int(round(r[i] * 10))
+                if r[i] is not None:
+                    r[i] = int(round(r[i] * 10))
     # rename (case) and permute
     if p["mangle"]:
         ren = {}
@@ -139,7 +141,7 @@ def make_scenario(seed):
         "label_enc": rng.choice(["pm1", "10", "bool"]),
         "level_cols": [c for c in ("ModifiedPeptide", "Precursor", "PeptideGroup") if rng.random() < 0.3],
         "nan_cols": rng.choice([0, 0, 1, 2, 3]),
-        "int_feature": rng.random() < 0.2,
+        "int_feature": rng.random() < 0.35,
         "mangle": rng.random() < 0.6,
         "permute": rng.random() < 0.6,
         "malformed": None,
